@@ -77,3 +77,20 @@ prop("C14",
                 "a five-line argument over the trie definitions (DESIGN.md), not mechanised. Known finding: the reverse clause "
                 "fails for NUL, CR and C1 controls/surrogates (inherent to HTML).",
      explanation="numeric and named reference functions under contract; tables and reverse map exhaustively ground-checked")
+
+
+prop("C20",
+     level="proof",
+     level_text="Exhaustive ground obligations over the whole BMP (every character as first, middle and last character of a "
+                "name, through a fresh and through one long-lived filter): the name-class regexps equal expat's name classes "
+                "(plus ':'), toXmlName output is accepted by expat, legal names are unchanged, fromXmlName inverts it, "
+                "escapeChar/unescapeChar round-trip, nonPubidCharRegexp equals the PubidChar production (all code points). "
+                "Proofs (all strings, all flag combinations): coerceComment never leaves '--' or a trailing '-', "
+                "coerceCharacters/coerceAttribute/coerceElement dispatch, and the replacement cache is a transparent memo.",
+     level_note="Trusted: pyvc, z3, expat as the judge of XML names. toXmlName on names of several characters is decided "
+                "character-wise (ground) -- that it acts character-wise (the sequential str.replace calls do not interfere "
+                "because replacements consist of name characters only) is argued in DESIGN.md, not mechanised; termination of "
+                "the `while '--' in data` loop is not decided. Astral characters are outside the regexps by design.",
+     not_decided=["toXmlName acts character-wise on multi-character names (argued, not mechanised)",
+                  "coercePubid beyond its character class", "termination of coerceComment's loop"],
+     explanation="BMP-exhaustive ground checks + contracts on the string-level coercions")
